@@ -14,6 +14,9 @@ def _is_nil(x):
     return type(x).__name__ == "NilType"
 
 
+_HUGE = 10 ** 4000
+
+
 def atom(x):
     """Type-tagged, hashable rendering of a plain value."""
     if x is None or x is Ellipsis:
@@ -22,7 +25,7 @@ def atom(x):
         return ("Nil",)
     if isinstance(x, float):
         return ("float", x.hex() if x == x and x not in (float("inf"), float("-inf")) else repr(x))
-    if type(x) is int and abs(x) >= 10 ** 4000:
+    if type(x) is int and (x > _HUGE or x < -_HUGE):
         return ("int", hex(x))      # (no decimal text for ints beyond CPython's 4300-digit conversion limit)
     if isinstance(x, (bool, int, str, bytes, uuid.UUID, _dt.datetime, _dt.date)):
         return (type(x).__name__, repr(x))
